@@ -76,8 +76,14 @@ RepPoint(e, ps) == LET p == PosOf(e.number, ps.letter)
                        W == << Val(ps.x), Val(ps.y), Val(ps.z_) >>
                    IN << (Dot(p.nm[1][1], W) + p.nc[1][1] * QU) % Q, (Dot(p.nm[1][2], W) + p.nc[1][2] * QU) % Q,
                          (Dot(p.nm[1][3], W) + p.nc[1][3] * QU) % Q >>
+\* For a two-dimensionally periodic input the conventional cell is re-sized and centred along its non-periodic
+\* vector, which is not a lattice direction: "modulo lattice translations" can then only refer to the plane, and the
+\* comparison is made on the two periodic components.
+CloseInPlane(p, q, eps) == Circ(p[1], q[1]) <= eps /\ Circ(p[2], q[2]) <= eps
 ParamsRegenerate(e) == \A j \in 1..Len(e.psets) :
-                          \E a \in ToSet(e.psets[j].idx) : CloseE(RepPoint(e, e.psets[j]), e.conv.pos[a], e.eps_tol)
+                          \E a \in ToSet(e.psets[j].idx) :
+                             IF e.two_dimensional THEN CloseInPlane(RepPoint(e, e.psets[j]), e.conv.pos[a], e.eps_tol)
+                             ELSE CloseE(RepPoint(e, e.psets[j]), e.conv.pos[a], e.eps_tol)
 RepresentativeIsTabulated(e) == \A j \in 1..Len(e.psets) : e.psets[j].rep_parsed = <<PosOf(e.number, e.psets[j].letter).nm[1], PosOf(e.number, e.psets[j].letter).nc[1]>>
 HasFreeFlag(e) == e.has_free = (\E j \in 1..Len(e.sets) : VarsOf(e.number, e.sets[j].letter) # {})
 SameSetsWithAndWithoutParams(e) == {<<e.psets[j].letter, e.psets[j].z, ToSet(e.psets[j].idx)>> : j \in 1..Len(e.psets)}
@@ -142,7 +148,8 @@ ConvCongruentProper(e) ==
                t == << (e.std.pos[b][1] - i0[1]) % Q, (e.std.pos[b][2] - i0[2]) % Q, (e.std.pos[b][3] - i0[3]) % Q >>
            IN MapsOnto(e, A, t)
 \* the standardization itself is a proper image of the input and both cells are right-handed
-Handedness(e) == e.std.detP_sign = 1 /\ e.conv.det_sign = 1 /\ e.std.det_sign = 1
+\* (a left-handed input basis is legitimately taken to the right-handed standard cell by a transformation of negative determinant)
+Handedness(e) == e.std.detP_sign * e.in_det_sign = e.std.det_sign /\ e.conv.det_sign = 1 /\ e.std.det_sign = 1
 V05(e) == IF ~GroupDetected(e) THEN "GroupDetected" ELSE IF ~IndependentGroupEqual(e) THEN "IndependentGroupEqual"
           ELSE IF ~StdLattice(e) THEN "StdLattice" ELSE IF ~SameComposition(e) THEN "SameComposition"
           ELSE IF ~SameDensity(e) THEN "SameDensity" ELSE IF ~Handedness(e) THEN "Handedness"
